@@ -143,7 +143,9 @@ static void build_good(const std::string& lt, int shape, int idx, vh::Rng& rng, 
     else if (lt == "LINUX_SLL") { SLL s; uint8_t a[8]; marker(idx, a); a[6] = 0; a[7] = 0; s.address(HWAddress<8>(a)); s.lladdr_len(6); s.lladdr_type(1); s.packet_type(shape % 2 ? 4 : 0);
         std::unique_ptr<PDU> in(l3(shape, idx, rng, salt)); f.pdu.reset((s / *in).clone()); }
     else if (lt == "RAW") f.pdu.reset(l3(shape, idx, rng, salt));
-    if (f.pdu) { f.bytes = f.pdu->serialize(); f.how = "writer"; return; }
+    // every other packet is handed to the writer as crafted - never serialised before (its bytes come from a clone), so that what libtins
+    // only derives when it serialises (lengths, checksums) is still unset in the object the writer gets
+    if (f.pdu) { if (idx % 2) { std::unique_ptr<PDU> c(f.pdu->clone()); f.bytes = c->serialize(); } else f.bytes = f.pdu->serialize(); f.how = "writer"; return; }
     // PPI: 8-byte header (version, flags, length, dlt) in front of an Ethernet or 802.11 frame serialised by libtins
     bool wifi = shape % 4 == 3; std::unique_ptr<PDU> in(wifi ? dot11(shape % 3, idx, rng, salt) : ether(shape, idx, rng, salt)); Bytes ib = in->serialize();
     uint32_t d = wifi ? DLT_IEEE802_11 : DLT_EN10MB; uint8_t h[8] = {0, 0, 8, 0, (uint8_t)d, (uint8_t)(d >> 8), 0, 0};
